@@ -325,7 +325,12 @@ def gen_cases(tier, rng, n_quick, n_thorough, singles_only=False, max_len=25):
     n = n_quick if tier == 'quick' else n_thorough
     for i in range(n):
         cls = 'ts' if rng.random() < 0.5 else 'plain'
-        gen = Gen(rng, cls)
+        universe = None
+        if cls == 'plain' and rng.random() < 0.12:
+            # names whose PAIRS collide when joined with a separator: ('a', 'b c') and ('a b', 'c') both spell 'a b c'
+            sep = rng.choice([' ', '_', ',', '-', '>', '|', ', ', '->'])
+            universe = ['a', 'b' + sep + 'c', 'a' + sep + 'b', 'c', 'b']
+        gen = Gen(rng, cls, universe=universe)
         length = rng.randint(3, max_len)
         ops = gen.history(length, singles_only)
         yield {'cls': cls, 'gmeta': dict(rng.choice(METAS)), 'ops': ops, 'warm': rng.random() < 0.5}
